@@ -36,6 +36,8 @@ type Input struct {
 	Spec       *Spec  `json:"spec"`
 	Registered bool   `json:"user_types_registered"`
 	Cfg        Config `json:"config"`
+	// several conversions on ONE Serializer (reent.go): Spec is then the array of the values converted
+	Reent *Reent `json:"reentrant,omitempty"`
 }
 
 type checker struct {
@@ -101,6 +103,11 @@ func (ck *checker) file(family string) *lib.CasesFile {
 }
 
 func caseGallina(mv *MV, cfg Config, out outcome, resM *MV) string {
+	return "(" + cfg.gallina() + ", " + mv.gallina() + ", " + obsGallina(out, resM) + ")"
+}
+
+// obsGallina: what one consumer observed (Corr.CorrC10 obs)
+func obsGallina(out outcome, resM *MV) string {
 	obs := ""
 	if out.serFault != "" {
 		obs = "(ObsSerFault " + eventsGallina(out.events) + ")"
@@ -114,7 +121,7 @@ func caseGallina(mv *MV, cfg Config, out outcome, resM *MV) string {
 		}
 		obs = "(ObsOk " + eventsGallina(out.events) + " " + r + ")"
 	}
-	return "(" + cfg.gallina() + ", " + mv.gallina() + ", " + obs + ")"
+	return obs
 }
 
 // checkValue runs one value (in one scenario) through the given configurations. emit(i) tells whether
@@ -185,53 +192,7 @@ func (ck *checker) checkValue(root px.Context, spec *Spec, registered bool, cfgs
 					fmt.Printf("FAILS %s: %s\n", clause, what)
 				}
 			}
-			for _, w := range out.wf {
-				for j := 0; j < len(w); j++ {
-					if w[j] == '|' {
-						violate(w[:j], w[j+1:], nil)
-						break
-					}
-				}
-			}
-			var tags, faultTags []string
-			if cfg.Rich && spec.structOverUserType() {
-				faultTags = []string{"struct-type-attribute-route"}
-				res.Count("value.struct-type-over-user-type")
-			}
-			expected := v
-			if !cfg.Rich {
-				expected = degradeRef(v, cfg.Bin, cfg.CK)
-			}
-			if ptypeKeyHash(expected) {
-				tags = []string{"user-hash-ptype-key"}
-				res.Count("value.user-hash-with-__ptype-key")
-			}
-			switch {
-			case out.serFault != "":
-				violate("roundtrip-no-fault", "serializer/consumer panicked: "+out.serFault, faultTags)
-			case out.resFault != "":
-				violate("roundtrip-no-fault", "deserializer panicked: "+out.resFault, append(tags, faultTags...))
-			default:
-				bk := cfg
-				bk.LocalRef, bk.Dedup = false, 0
-				base, ok := baseline[bk]
-				if !ok {
-					if cfg == bk {
-						base = out.data
-					} else if bo := runOne(ctxS, v, bk); bo.serFault == "" && bo.resFault == "" {
-						base = bo.data
-					}
-					baseline[bk] = base
-				}
-				if base != nil {
-					if d := dataEq(base, out.data, ""); d != "" {
-						violate("stream-ref-equal-value", "with the references resolved the stream differs from the reference-free stream at "+d, nil)
-					}
-				}
-				if d := deepEq(expected, out.result, ""); d != "" {
-					violate("roundtrip-equal", "deserialized value differs from the "+map[bool]string{true: "original", false: "documented lossy image"}[cfg.Rich]+" at "+d, tags)
-				}
-			}
+			ck.judge(ctxS, v, spec, cfg, out, baseline, violate)
 			if verbose {
 				fmt.Printf("value   %s\nconfig  %s\nevents  %v\n", spec, cfg, eventsText(out.events))
 				if out.serFault != "" {
@@ -290,6 +251,62 @@ func (ck *checker) checkValue(root px.Context, spec *Spec, registered bool, cfgs
 	})
 }
 
+// judge evaluates every clause of the property on one observed conversion of v under cfg (out): the stream
+// clauses noted by the recorder, no fault, the references resolve to the values of the reference-free stream,
+// and the deserialized value equals the original (its documented lossy image without rich_data).
+// baseline caches the Data tree of the reference-free run of v per (rich, bin, ck, thr).
+func (ck *checker) judge(ctxS px.Context, v px.Value, spec *Spec, cfg Config, out outcome, baseline map[Config]px.Value,
+	violate func(clause, what string, tags []string)) {
+	res := ck.res
+	for _, w := range out.wf {
+		for j := 0; j < len(w); j++ {
+			if w[j] == '|' {
+				violate(w[:j], w[j+1:], nil)
+				break
+			}
+		}
+	}
+	var tags, faultTags []string
+	if cfg.Rich && spec.structOverUserType() {
+		faultTags = []string{"struct-type-attribute-route"}
+		res.Count("value.struct-type-over-user-type")
+	}
+	expected := v
+	if !cfg.Rich {
+		expected = degradeRef(v, cfg.Bin, cfg.CK)
+	}
+	if ptypeKeyHash(expected) {
+		tags = []string{"user-hash-ptype-key"}
+		res.Count("value.user-hash-with-__ptype-key")
+	}
+	switch {
+	case out.serFault != "":
+		violate("roundtrip-no-fault", "serializer/consumer panicked: "+out.serFault, faultTags)
+	case out.resFault != "":
+		violate("roundtrip-no-fault", "deserializer panicked: "+out.resFault, append(tags, faultTags...))
+	default:
+		bk := cfg
+		bk.LocalRef, bk.Dedup = false, 0
+		base, ok := baseline[bk]
+		if !ok {
+			if cfg == bk && !out.overlapped {
+				base = out.data
+			} else if bo := runOne(ctxS, v, bk); bo.serFault == "" && bo.resFault == "" {
+				base = bo.data
+			}
+			baseline[bk] = base
+		}
+		if base != nil {
+			if d := dataEq(base, out.data, ""); d != "" {
+				violate("stream-ref-equal-value", "with the references resolved the stream differs from the reference-free stream at "+d, nil)
+			}
+		}
+		if d := deepEq(expected, out.result, ""); d != "" {
+			violate("roundtrip-equal", "deserialized value differs from the "+map[bool]string{true: "original", false: "documented lossy image"}[cfg.Rich]+" at "+d, tags)
+		}
+	}
+}
+
 func main() {
 	cfg := lib.ParseFlags()
 	res := lib.NewResult("C10")
@@ -310,7 +327,7 @@ func main() {
 			ck.run(root, lib.NewRng(cfg.Seed))
 		}
 	})
-	names := []string{"corpus", "exhaustive", "random_a", "random_b", "random_c", "random_d", "replay"}
+	names := []string{"corpus", "exhaustive", "random_a", "random_b", "random_c", "random_d", "reentrant", "replay"}
 	for _, n := range names {
 		if f, ok := ck.files[n]; ok {
 			res.CorrFiles = append(res.CorrFiles, f.WriteTo(cfg.Out, "cases_"+n))
@@ -327,6 +344,10 @@ func (ck *checker) replay(root px.Context) {
 		var in Input
 		lib.Remarshal(raw, &in)
 		if in.Kind != "c10" || in.Spec == nil {
+			continue
+		}
+		if in.Reent != nil && len(in.Reent.Cfgs) > 0 && in.Spec.K == "arr" && len(in.Spec.E) > 0 {
+			ck.checkScenario(root, in.Spec, in.Registered, in.Reent, true, "replay", true)
 			continue
 		}
 		ck.checkValue(root, in.Spec, in.Registered, []Config{in.Cfg}, func(int) bool { return true }, "replay", true)
@@ -462,4 +483,6 @@ func (ck *checker) run(root px.Context, rng *lib.Rng) {
 			ck.checkValue(root, s, reg, sel, pick(r, perValue, len(sel)), randomFiles[i%len(randomFiles)], false)
 		}
 	}
+	// 4. several conversions on one Serializer object (reent.go)
+	ck.runReentrant(root, rng.Fork(), scenarios)
 }
